@@ -193,6 +193,8 @@ func (c *MapCodec) readMapEntry(mp, k unsafe.Pointer, data []byte) (int, error) 
 		return 0, err
 	}
 
+	// haveValue records whether the tag we have just read is the value's
+	haveValue := index == 2
 	if index == 1 {
 		// Key is present - read it. The key scratch space is re-used, and
 		// codecs only write the parts of the key that are present in the data,
@@ -211,14 +213,15 @@ func (c *MapCodec) readMapEntry(mp, k unsafe.Pointer, data []byte) (int, error) 
 	// the value should be. We're going to unmarshal into this directly
 	val := mapassign(unpackEFace(c.rtype).data, mp, k)
 
-	if offset < len(data) {
-		if index == 1 {
-			offset, fieldEnd, _, wt, err = c.readTagAndLength(data, offset)
-			if err != nil {
-				return 0, err
-			}
+	if index == 1 && offset < len(data) {
+		offset, fieldEnd, _, wt, err = c.readTagAndLength(data, offset)
+		if err != nil {
+			return 0, err
 		}
+		haveValue = true
+	}
 
+	if haveValue {
 		n, err := c.valueCodec.Read(data[offset:fieldEnd], val, wt)
 		if err != nil {
 			return 0, fmt.Errorf("failed reading value field of %s. %w", c.rtype.Name(), err)
